@@ -122,6 +122,7 @@ type Sys struct {
 // StartSys creates and starts an actor system with the discard logger.
 func StartSys(c *Ctx, name string, opts ...actor.Option) *Sys {
 	s := &Sys{C: c, Ctx: context.Background(), Probes: map[string]*Probe{}}
+	actor.VerifDrainGrainContexts() // process-level pool: a run must not depend on what ran before it in the worker
 	all := append([]actor.Option{actor.WithLogger(log.DiscardLogger)}, opts...)
 	sys, err := actor.NewActorSystem(name, all...)
 	if err != nil {
